@@ -362,6 +362,40 @@ Definition cl_rbinop (B : obases) (o : bop) (other self : arg) : M arg :=
 Definition cl_unop (B : obases) (self : arg) : M arg :=
   list_unop (scalar_unop B) self KList.
 
+(* ---- named operators (every AbstractObject binary / unary method other than + - * and neg) ---- *)
+(* bi.<name>(a, b) on two non-sequences (the scbuiltin wrapper): a UGen on the left composes
+   (a._compose_binop), otherwise a UGen on the right composes REFLECTED (b._rcompose_binop): both give
+   BinaryOpUGen.new(name, a, b) with the operands in the order written; BinaryOpUGen._new1 has no
+   shortcut for these selectors.  Two plain numbers: the numeric kernel of builtins (property C15). *)
+Definition scalar_binop_named (base : Z) (x y : arg) : M arg :=
+  match x, y with
+  | Scalar (K _), Scalar (K _) => raise NotModelled
+  | Scalar (Str _), _ | _, Scalar (Str _) => raise TypeError
+  | _, _ => multi_new (new1_rated base 1 binop_ratef) [x; y]
+  end.
+Definition cl_binop_named (base : Z) (self other : arg) : M arg :=
+  list_binop (scalar_binop_named base) self other KList.
+Definition cl_rbinop_named (base : Z) (other self : arg) : M arg :=
+  list_binop (scalar_binop_named base) other self KList.
+Definition ugen_binop_named (base : Z) (x y : arg) : M arg :=
+  match y with
+  | Lst [] | Tuple [] | Scalar (Str _) => raise TypeError
+  | _ => multi_new (new1_rated base 1 binop_ratef) [x; y]
+  end.
+Definition ugen_rbinop_named (base : Z) (y x : arg) : M arg :=
+  match y with
+  | Lst [] | Tuple [] | Scalar (Str _) => raise TypeError
+  | _ => multi_new (new1_rated base 1 binop_ratef) [y; x]
+  end.
+Definition scalar_unop_named (base : Z) (x : arg) : M arg :=
+  match x with
+  | Scalar (K _) => raise NotModelled
+  | Scalar (Str _) => raise TypeError
+  | _ => multi_new (new1_rated base 1 unop_ratef) [x]
+  end.
+Definition cl_unop_named (base : Z) (self : arg) : M arg :=
+  list_unop (scalar_unop_named base) self KList.
+
 (* ---- MulAdd ------------------------------------------------------------------------------ *)
 (* MulAdd._can_be_muladd(input, mul, add) *)
 Definition can_be_muladd (st : state) (i m a : arg) : option bool :=
